@@ -91,7 +91,7 @@ func judgeFuzzC10(c fuzzCase) string {
 
 func judgeFuzzC05(c fuzzCase) string {
 	cfg := fuzzCfgs[int(c.Sel)%len(fuzzCfgs)]
-	if est := estimate(string(c.Data)); est > expansionBound {
+	if est := estimate(string(c.Data), cfg); est > expansionBound {
 		return ""
 	}
 	var wd gmars.WarriorData
